@@ -86,6 +86,15 @@ func (m *Machine) binop(op token.Token, a, b Value, ta, tb types.Type) Value {
 				big = tt.Cmp(OpULE, tt.BV(uint64(x.w), x.w), cnt)
 			}
 			if op == token.SHL {
+				if x.IsConst() && x.val == 1 && !cnt.IsConst() {
+					// 1 << n with symbolic n: an ite chain over the possible counts (single-bit masks); keeps mask tests
+					// such as (1<<n)&m cheap for the solver (DESIGN.md section 7)
+					res := tt.BV(0, x.w)
+					for k := x.w - 1; k >= 0; k-- {
+						res = tt.Ite(tt.Eq(cnt, tt.BV(uint64(k), x.w)), tt.BV(uint64(1)<<uint(k), x.w), res)
+					}
+					return res
+				}
 				return tt.Ite(big, tt.BV(0, x.w), tt.Bin(OpShl, x, cnt))
 			}
 			if signed {
